@@ -31,7 +31,7 @@ def make_force_fields():
 
 def gen_mapping(rng, float_weights=True):
     """one [ block ] mapping of 1-2 residues"""
-    nres = rng.choice([1, 1, 1, 2])
+    nres = rng.choice([1, 1, 2, 2])
     resnames = [rng.choice(sorted(FROM_BLOCKS)) for _ in range(nres)]
     explicit_ids = nres > 1 or rng.random() < 0.3             # ALA#1 ALA#2 versus ALA
     lines = []
@@ -63,6 +63,17 @@ def gen_mapping(rng, float_weights=True):
             attrs = rng.choice([None, None, {'element': 'H'}, {'charge': 1.0}, {'element': 'H', 'mass': 1.008}])
             anchor = rng.choice(FROM_BLOCKS[resnames[ri - 1]][0])
             extra.append({'res': ri, 'name': 'HX%d' % (j + 1), 'attrs': attrs, 'qualified': qualified, 'anchor': anchor,
+                          'bead': rng.choice(TO_BLOCKS[resnames[ri - 1]][0]), 'weight': rng.choice(WEIGHTS)})
+    if nres > 1 and rng.random() < 0.5:
+        # a node written with its identifier and a dict of attributes, followed by nodes without identifier (they go to the
+        # same residue) and without attributes of their own
+        ri = rng.randint(1, nres)
+        extra = [{'res': ri, 'name': 'HX1', 'attrs': rng.choice([{'element': 'H'}, {'charge': 1.0}, {'element': 'H', 'mass': 1.008}]),
+                  'qualified': True, 'anchor': rng.choice(FROM_BLOCKS[resnames[ri - 1]][0]),
+                  'bead': rng.choice(TO_BLOCKS[resnames[ri - 1]][0]), 'weight': rng.choice(WEIGHTS)}]
+        for j in range(rng.randint(1, 2)):
+            extra.append({'res': ri, 'name': 'HX%d' % (j + 2), 'attrs': None, 'qualified': False,
+                          'anchor': rng.choice(FROM_BLOCKS[resnames[ri - 1]][0]),
                           'bead': rng.choice(TO_BLOCKS[resnames[ri - 1]][0]), 'weight': rng.choice(WEIGHTS)})
     refs = []
     if rng.random() < 0.2 and lines:
